@@ -153,7 +153,13 @@ def _vm_goal(case, out):
         return "(json_ann %s, read_obj (json_ann %s)) = (%s, Some (%s, (@nil N)))" % (_vm_ann(p[1]), _vm_ann(p[1]), _vm_str(o[0]), _vm_ann(o[1]))
     if p[0] == "D":
         sh = lambda t: "(@None str)" if t == "NONE" else "(Some %s)" % _vm_str(t)
-        return "(doc_media_type %s, doc_artifact_type %s) = (%s, %s)" % (_vm_str(p[1]), _vm_str(p[1]), sh(o[0]), sh(o[1]))
+        if o[2] == "NONE":
+            cfg = "(@None (str * str * N))"
+        else:
+            cm, cd, cn = o[2].split(":")
+            cfg = "(Some (%s, %s, %s))" % (_vm_str(cm), _vm_str(cd), cn)
+        return "(doc_media_type %s, doc_artifact_type %s, doc_config_head %s) = (%s, %s, %s)" % (
+            _vm_str(p[1]), _vm_str(p[1]), _vm_str(p[1]), sh(o[0]), sh(o[1]), cfg)
     if p[0] == "S":
         return "digest_of %s = %s" % (_vm_str(p[1]), _vm_str(o[0]))
     if p[0] == "J":
@@ -236,7 +242,7 @@ def _c19_vm_sample(d, tier, coq, build):
 
 CONFIG = {
     "properties_file": "Properties/C19.v",
-    "proof_files": ["Base/Prelude.v", "Base/Regex.v", "Base/StrCheck.v", "Proofs/Pack.v", "Proofs/PackTime.v", "Proofs/PackJson.v", "Proofs/PackTie.v", "Proofs/PackEnc.v"],
+    "proof_files": ["Base/Prelude.v", "Base/Regex.v", "Base/StrCheck.v", "Proofs/Pack.v", "Proofs/PackTime.v", "Proofs/PackJson.v", "Proofs/PackTie.v", "Proofs/PackEnc.v", "Proofs/PackNum.v"],
     "model_files": ["Generated/GC19.v", "Model/Pack.v", "Model/PackEnc.v", "Model/PackSha.v"],
     "extract": "XC19.v",
     "ml_main": "c19_main.ml",
@@ -245,7 +251,7 @@ CONFIG = {
     "post_model": _c19_vm_sample,
     "assumptions": [
         "json.Marshal of the manifest documents IS MODELLED: Model/PackEnc.v json_manifest (struct field order and omitempty of ocispec.Manifest / Descriptor / Platform and spec.Artifact -- the tags are re-read by the translator, kind jsontags, from the repository and from image-spec in the module cache --, appendString escaping incl. HTML-safe set, U+2028/9 and coercion of invalid UTF-8, map keys sorted bytewise, int64 decimal, []byte in base64); it is compared byte for byte with the stored manifest on every successful call and with json.Marshal / base64 on random strings (case kinds J, B). The theorems keep marshal as a parameter (they hold for any marshalling); C19_json_marshal_order_independent, C19_annotation_order_independent_json, C19_json_string_roundtrip and C19_json_string_injective_on_valid_utf8 are about the modelled one",
-        "READING BACK a whole manifest (encoding/json Unmarshal of the document) is still the named premise json_roundtrip of C19_stored_parses: unmarshal (marshal m) = Some (san_manifest m); it is a theorem for strings (json_unesc (json_esc s) = Some (utf8_san s)) and for the annotations object (C19_json_annotations_roundtrip: read_obj (json_ann l ++ rest) = Some (san_ann (kv_sort l), rest); compared with encoding/json's Marshal and ordered decoding on random maps, case kind A), and for the head of the manifest document (C19_document_declares_media_type / _artifact_type: the mediaType and artifactType fields read from json_manifest m; the model's readers are run on the implementation's stored bytes against encoding/json, case kind D; C19_stored_document_declares: the stored document declares the returned descriptor's media type), not for the whole document (descriptors, numbers, base64 are written by the model but not read back); the harness re-parses the stored bytes with encoding/json and compares the document field by field; strings that are not valid UTF-8 are generated for annotation keys/values, config annotations, artifactType and inside caller-supplied descriptors (media type, annotations, urls, artifactType) -- known finding non-utf8-lossy; keys colliding after coercion are not generated",
+        "READING BACK a whole manifest (encoding/json Unmarshal of the document) is still the named premise json_roundtrip of C19_stored_parses: unmarshal (marshal m) = Some (san_manifest m); it is a theorem for strings (json_unesc (json_esc s) = Some (utf8_san s)) and for the annotations object (C19_json_annotations_roundtrip: read_obj (json_ann l ++ rest) = Some (san_ann (kv_sort l), rest); compared with encoding/json's Marshal and ordered decoding on random maps, case kind A), and for the head of the manifest document (C19_document_declares_media_type / _artifact_type: the mediaType and artifactType fields read from json_manifest m; the model's readers are run on the implementation's stored bytes against encoding/json, case kind D; C19_stored_document_declares: the stored document declares the returned descriptor's media type), for decimal numbers (C19_json_number_roundtrip) and for the head of the config descriptor of an image manifest (C19_document_declares_config: media type, digest, size; the model's reader runs on the implementation's stored bytes, case kind D), not for the whole document (layers, subject, urls/data/platform of descriptors are written by the model but not read back); the harness re-parses the stored bytes with encoding/json and compares the document field by field; strings that are not valid UTF-8 are generated for annotation keys/values, config annotations, artifactType and inside caller-supplied descriptors (media type, annotations, urls, artifactType) -- known finding non-utf8-lossy; keys colliding after coercion are not generated",
         "the digest function is a parameter H with the single hypothesis H \"{}\" = sha256:44136f...; collision-freeness of H is an explicit premise of the clauses that conclude equality of stored bytes; digest.FromBytes (SHA-256) has an executable model (Model/PackSha.v digest_of, compared with go-digest on random strings, case kind S, and with the descriptor digest of a 1/40 sample of the pack calls); it satisfies the hypothesis by computation (C19_sha256_of_empty_json) and the theorems instantiate to the fully executable model (C19_executable_instance_consistent); collision-freeness of SHA-256 is of course not proved",
         "C19_annotation_order_independent keeps the premise marshal_perm for an arbitrary marshal; for the modelled json.Marshal it is the theorem C19_json_marshal_order_independent (canonical insertion sort by strings.Compare order, keys distinct); the harness re-inserts annotations in reverse order into maps of another capacity on every successful call and walks the raw stored JSON for sorted keys",
         "the validation of a caller-supplied created value is modelled as the code is written: time.Parse(time.RFC3339, _) = the lenient recogniser rfc3339_gen false (step-by-step mirror of time.parse of go1.26.8 for that layout; compared with the real time.Parse on every run, case kind L), followed by the explicit strict checks of validateRFC3339 re-read by the translator (kind strictchecks); proved equal to the strict recogniser and to the RFC 3339 section 5.6 grammar with upper-case T/Z and no leap second; all indices in range",
